@@ -378,6 +378,131 @@ class Gen:
         for i in self.T.unseen(k, pred):
             self.emit({"t": "deliver", "k": k, "i": i})
 
+    def find_clean_view(self, c, honest, ahead):
+        """brings all nodes to one view V in phase Prepare with the (honest) leader's proposal for V
+        in the soup and delivered to nobody; the leaders of the next `ahead` views are honest too.
+        Returns (V, soup index of the proposal) or None."""
+        T, rng = self.T, self.rng
+        N = T.N
+        leader = lambda v: c[v % len(c)][0]
+        for _ in range(rng.below(3)):
+            self.note("directed:warmup_round")
+            self.emit({"t": "round"})
+        for _ in range(10):
+            for _ in range(2):
+                for k in range(N):
+                    self.deliver_where(k, lambda m: m["kind"] != 0)
+            for k in range(N):
+                for _ in range(6):
+                    if T.nblocks[k] >= max(T.nblocks):
+                        break
+                    self.emit({"t": "sync", "k": k})
+            V = T.view[0]
+            if all(T.view[k] == V and T.phase[k] == 0 for k in range(N)) and all(leader(V + d) in honest for d in range(ahead + 1)):
+                props = [i for i, m in enumerate(T.soup) if m["kind"] == 0 and m["view"] == V and m["key"] == leader(V)
+                         and all(i not in T.seen[k] for k in range(N))]
+                if props:
+                    return (V, props[-1])
+            for k in range(N):
+                self.emit({"t": "timer", "k": k})
+        return None
+
+    def timeouts_to(self, ks, V, signers):
+        """delivers the view-V timeouts of `signers` to the nodes `ks` until each has left view V"""
+        T, rng = self.T, self.rng
+        tix = [i for i, m in enumerate(T.soup) if m["kind"] == 2 and m["view"] == V and m["key"] in signers]
+        for k in ks:
+            for i in rng.shuffle(tix):
+                if T.view[k] > V:
+                    break
+                if i not in T.seen[k]:
+                    self.emit({"t": "deliver", "k": k, "i": i})
+
+    # ---- directed family "split vote, then commit then timeout" ----
+    def committee_split(self):
+        rng = self.rng
+        ws = rng.shuffle(rng.choice([[1] * 6, [1] * 6, [1] * 7, [1] * 8, [2, 1, 1, 1, 1], [3, 2, 2, 1, 1, 1, 1]]))
+        ranks = sorted(rng.shuffle(list(range(16)))[:len(ws)])
+        c = list(zip(ranks, ws))
+        return c, list(ranks), None, (sum(ws) - 1) // 5
+
+    def split_vote(self, c, honest, byz, f):
+        """View v: the proposal (N, P1) reaches only a subset W1 weighing at least the sub-quorum
+        (they vote, no certificate); everybody times out and TimeoutQC(v) is assembled WITHOUT some
+        of those voters, so that it shows no sub-quorum for P1; view v+1: the leader legally proposes
+        a FRESH (N, P2), everybody votes, exactly one node x (not in W1) receives the votes and
+        commits P2, the others time out and assemble TimeoutQC(v+1) from W1 first; then the
+        synchronous suffix, in which the leader of v+2 must re-propose (N, P2)."""
+        T, rng = self.T, self.rng
+        N, wt, q, s = T.N, dict(c), M.quorum(c), M.subquorum(c)
+        leader = lambda v: c[v % len(c)][0]
+        node_of = {r: k for k, r in enumerate(honest)}
+        hw = sum(wt[r] for r in honest)
+        self.directed_variant = "split:none"
+        found = self.find_clean_view(c, honest, 2)
+        if not found:
+            self.note("directed:no_clean_view")
+            return
+        V, ip = found
+        plan = None
+        for _ in range(40):
+            W1, w1 = [], 0
+            for r in rng.shuffle(honest):
+                if w1 >= s:
+                    break
+                W1.append(r)
+                w1 += wt[r]
+            Om, wo = [], 0
+            for r in rng.shuffle(W1):
+                if w1 - wo < s:
+                    break
+                Om.append(r)
+                wo += wt[r]
+            xs = [r for r in honest if r not in W1 and r != leader(V + 2) and hw - wt[r] >= q]
+            if s <= w1 < q and w1 - wo < s and hw - wo >= q and xs:
+                plan = (W1, Om, rng.choice(xs))
+                break
+        if plan is None:
+            self.note("directed:split_infeasible")
+            return
+        W1, Om, x = plan
+        self.directed_variant = "split"
+        self.note("directed:split_vote")
+        # view V: partial vote for P1, TimeoutQC(V) without the voters Om
+        for r in W1:
+            self.emit({"t": "deliver", "k": node_of[r], "i": ip})
+        for k in range(N):
+            self.emit({"t": "timer", "k": k})
+        self.timeouts_to(range(N), V, [r for r in honest if r not in Om])
+        V2 = V + 1
+        if not all(T.view[k] == V2 and T.phase[k] == 0 for k in range(N)):
+            self.note("directed:split_view_not_reached")
+            return
+        props = [i for i, m in enumerate(T.soup) if m["kind"] == 0 and m["view"] == V2 and m["key"] == leader(V2)]
+        if not props:
+            self.note("directed:split_no_second_proposal")
+            return
+        # view V+1: everybody votes for the fresh proposal, only x sees the votes
+        for k in range(N):
+            self.emit({"t": "deliver", "k": k, "i": props[-1]})
+        kx = node_of[x]
+        h0 = T.nblocks[kx]
+        for i in rng.shuffle(T.unseen(kx, lambda m: m["kind"] == 1 and m["view"] == V2)):
+            self.emit({"t": "deliver", "k": kx, "i": i})
+            if T.nblocks[kx] > h0:
+                self.note("directed:one_node_committed")
+                break
+        O = [k for k in range(N) if k != kx]
+        for k in O:
+            self.emit({"t": "timer", "k": k})
+        S, w = [], 0
+        for r in W1 + rng.shuffle([honest[k] for k in O if honest[k] not in W1]):
+            if w >= q:
+                break
+            S.append(r)
+            w += wt[r]
+        self.timeouts_to(O, V2, S)
+
     def commit_then_timeout(self, c, honest, byz, f):
         """View v: the leader proposes A; chosen voters vote; exactly one light node (sometimes
         nobody) receives the quorum of commit votes and commits A; the others time out in v and
@@ -390,28 +515,7 @@ class Gen:
         N, wt, q = T.N, dict(c), M.quorum(c)
         leader = lambda v: c[v % len(c)][0]
         node_of = {r: k for k, r in enumerate(honest)}
-        for _ in range(rng.below(3)):
-            self.note("directed:warmup_round")
-            self.emit({"t": "round"})
-        found = None
-        for _ in range(10):
-            for _ in range(2):
-                for k in range(N):
-                    self.deliver_where(k, lambda m: m["kind"] != 0)
-            for k in range(N):
-                for _ in range(6):
-                    if T.nblocks[k] >= max(T.nblocks):
-                        break
-                    self.emit({"t": "sync", "k": k})
-            V = T.view[0]
-            if all(T.view[k] == V and T.phase[k] == 0 for k in range(N)) and leader(V + 1) in honest and leader(V) in honest:
-                props = [i for i, m in enumerate(T.soup) if m["kind"] == 0 and m["view"] == V and m["key"] == leader(V)
-                         and all(i not in T.seen[k] for k in range(N))]
-                if props:
-                    found = (V, props[-1])
-                    break
-            for k in range(N):
-                self.emit({"t": "timer", "k": k})
+        found = self.find_clean_view(c, honest, 1)
         if not found:
             self.note("directed:no_clean_view")
             self.directed_variant = "none"
@@ -491,13 +595,7 @@ class Gen:
                 break
             S.append(r)
             w += wt[r]
-        tix = [i for i, m in enumerate(T.soup) if m["kind"] == 2 and m["view"] == V and m["key"] in S]
-        for k in O:
-            for i in rng.shuffle(tix):
-                if T.view[k] > V:
-                    break
-                if i not in T.seen[k]:
-                    self.emit({"t": "deliver", "k": k, "i": i})
+        self.timeouts_to(O, V, S)
         if stopped is not None and rng.chance(2, 3):
             self.emit({"t": "restart", "k": stopped})
 
@@ -505,7 +603,8 @@ class Gen:
     def run(self, directed=False):
         rng, opts = self.rng, self.opts
         self.force_commit_one = directed == "commit_one"
-        c, honest, byz, f = self.committee_directed() if directed else self.committee()
+        c, honest, byz, f = (self.committee_split() if directed == "split" else
+                             self.committee_directed() if directed else self.committee())
         self.F = rng.choice([0, 0, 1, 7])
         header = {"committee": M.committee_json(c), "nodes": honest, "first_block": str(self.F), "max_payload": 100, "ops": []}
         self.T = Tracker(c, honest, byz)
@@ -519,7 +618,9 @@ class Gen:
         budget = rng.range(opts.get("prefix_min", 30), opts.get("prefix_ops", 120))
         hang = False
         try:
-            if directed:
+            if directed == "split":
+                self.split_vote(c, honest, byz, f)
+            elif directed:
                 self.commit_then_timeout(c, honest, byz, f)
             while not directed and len(self.ops) < budget:
                 rng.choice(tactics)()
@@ -792,7 +893,9 @@ def run_sim_cases(rep, prop, opts, n, rng, broken, extra_cases=()):
             outs.append(o)
     # a fixed quarter of the schedules (at least 2) belongs to the directed family "commit then timeout"
     # (every other one of them is the plain variant: one node commits, the others time out)
-    rngs = [(rng.fork(), "commit_one" if i % 8 == 1 else (i % 4 == 1 or (n < 8 and i < min(2, n)))) for i in range(n)]
+    # one schedule in 8 belongs to the directed family "split vote, then commit then timeout"
+    rngs = [(rng.fork(), "commit_one" if i % 8 == 1 else ("split" if i % 8 == 3 else (i % 4 == 1 or (n < 8 and i < min(2, n)))))
+            for i in range(n)]
     with ThreadPoolExecutor(max_workers=opts.get("workers", 12)) as ex:
         for case, out in ex.map(lambda r: gen_case(r[0], opts, r[1]), rngs):
             cases.append(case)
